@@ -14,14 +14,16 @@ THEOREMS = {
     "SpecKitV.Lemmas.Starts": ["nsegRaw_eq", "capK_le", "startsEven_safe", "startsAccum_safe", "overlapMean_eq_closed", "overlapMean_accum_eq_closed"],
     "SpecKitV.Lemmas.SchedNewVec": ["SchedNV.searchLeft_mono", "SchedNV.roundEven_mono", "SchedNV.roundEven_abs_sub_le"],
     "SpecKitV.Props.C04": ["ltfPlan_monotone", "lpsdPlan_monotone", "ltfPlan_K_formula", "lpsdPlan_K_formula", "ltfPlan_logspaced", "plan_even_spread", "plan_overlap_reported", "findJdes_sound", "findJdes_fuel", "findJdes_complete"],
+    "SpecKitV.Props.C04New": ["newPlan_monotone", "NewMono.newStep_mono", "NewMono.inv_step", "NewMono.newK_anti"],
     "SpecKitV.Props.C04Vec": ["vecGridPoint_mono", "vecGrid_mono", "vecGrid_pos", "vecPlan_monotone"],
     "SpecKitV.Props.SchedGen": ["gen_ltf_round_eq", "gen_ltf_walk_eq_model", "gen_new_walk_eq_model"],
+    "SpecKitV.Props.StartsGen": ["gen_ltf_starts_eq_model", "gen_ltf_starts_safe"],
     "SpecKitV.Props.Utils": ["gen_round_half_up_eq_model", "gen_round_half_up_eq_floor"],
 }
 CONTRACTS: List[str] = []
 ASSUMPTIONS = ["sub-claim 'vectorised bin count within 10 % of the iterative one' is a comparison of two algorithms that no theorem here decides: "
                "it is probed on the real schedulers only (known finding D10 for Jdes < 10)",
-               "monotonicity of L/K is proved for the iterative LTF/LPSD plans and for the vectorised plan (Props/C04Vec); for the multi-stage scheduler it is checked by the oracle"]
+               "monotonicity of L/K is proved for all four schedulers (Props/C04, C04Vec, C04New) over the reals; in floats a rounding tie can flip a single step, which is what the oracle's instability probe absorbs"]
 RULE = "admissible configurations × 4 schedulers; every bin checked; distinct by (scheduler, configuration)"
 
 D10 = {"N": 16861, "fs": 1.0, "olap": 0.9, "bmin": 1.5, "Lmin": 1, "Jdes": 1, "Kdes": 10}
